@@ -163,7 +163,12 @@ pub fn one_c08(prop: &str, c: &Case, rep: &mut Report) {
             // two faces of area 1 with the expected neighbours
             let fl: Vec<_> = cell.faces(v).collect();
             let own: Vec<_> = b.nonsym.iter().filter(|f| f.left() == i).collect();
-            if own.len() != 2 || own.iter().any(|f| f.integral().area != 1.) {
+            // area of the unit cross-section: exact up to the rounding of vertex coordinates of magnitude M
+            let atol = K * s.u * (1. + s.m);
+            for f in &own {
+                rep.max("c08.1d_face_area_err_over_tol", (f.integral().area - 1.).abs() / atol);
+            }
+            if own.len() != 2 || own.iter().any(|f| !((f.integral().area - 1.).abs() <= atol)) {
                 rep.violations.push(Violation::new(prop, "c08.1d_faces", format!("1D cell {i} has {} faces with areas {:?} (expected 2 faces of area 1)", own.len(), own.iter().map(|f| f.integral().area).collect::<Vec<_>>()), Some(c), json!({"cell": i})));
             } else {
                 let mut got: Vec<Option<usize>> = own.iter().map(|f| f.right()).collect();
